@@ -202,6 +202,15 @@ class ProgGen:
             return ("plist", items, tail)
 
         shape = build(n, 0)
+        if getattr(self, "force_capture", False) and self.has("captures") and not any(x[0] == "cap" for x in shape[1]):
+            # make sure there is an (@ name (sub pattern)) parameter
+            self.use("captures")
+            self.use("destructure")
+            cap = self.fresh(prefix)
+            names.append(cap)
+            types[cap] = "any"
+            sub = ("plist", [leaf() for _ in range(rng.randint(1, 3))], None)
+            shape[1].insert(rng.randrange(len(shape[1]) + 1), ("cap", cap, sub))
 
         def to_tree(s):
             if s[0] == "leaf":
@@ -254,9 +263,24 @@ class ProgGen:
         return ("list", [I(x) for x in ints], None)
 
     def expr(self, sc, ty, depth):
+        e = self.expr_(sc, ty, depth)
+        if e[0] == "list" and len(text(e)) > 8:
+            rec = self.__dict__.setdefault("recent", [])
+            rec.append((ty, frozenset(sc.vars.items()), e))
+            del rec[:-12]
+        return e
+
+    def expr_(self, sc, ty, depth):
         rng = self.rng
         if ty == "bool":
             return self.boolexpr(sc, depth)
+        if depth > 0 and rng.random() < 0.10:
+            # the same non-trivial subexpression again (what common-subexpression elimination looks for)
+            cur = set(sc.vars.items())
+            cands = [e for (t, vs, e) in self.__dict__.get("recent", []) if t == ty and vs <= cur]
+            if cands:
+                self.use("dupexpr")
+                return rng.choice(cands)
         vs = sc.of(ty) if ty != "any" else list(sc.vars)
         if depth <= 0 or rng.random() < 0.12:
             if vs and rng.random() < 0.75:
@@ -291,7 +315,10 @@ class ProgGen:
             if m[2] == ty or ty == "any":
                 return L(S(m[0]), *[self.macroarg(sc, d) for _ in range(m[1])])
         if ty == "int":
-            op = rng.choice(["+", "-", "*", "+", "-", "strlen", "f", "logand", "logior", "logxor", "lognot", "/", "ash", "sha-len", "divmod-f"])
+            op = rng.choice(["+", "-", "*", "+", "-", "strlen", "f", "logand", "logior", "logxor", "lognot", "/", "ash", "sha-len", "divmod-f", "raw-i"])
+            if op == "raw-i":
+                # the strict operator i (both branches evaluated), not the lazy `if` macro
+                return L(S("i"), self.boolexpr(sc, d), self.expr(sc, "int", d), self.expr(sc, "int", d))
             if op in ("+", "-", "*", "logand", "logior", "logxor"):
                 return L(S(op), *[self.expr(sc, "int", d) for _ in range(rng.randint(1, 3))])
             if op == "strlen":
@@ -457,17 +484,17 @@ class ProgGen:
         rng = self.rng
         shape = f["shape"]
 
-        def arg(s):
+        def arg(s, extra=0.2):
             if s[0] == "leaf":
                 return self.expr(sc, s[2], d)
             if s[0] == "cap":
-                return arg(s[2])
+                return arg(s[2], 0.5)
             items = [arg(x) for x in s[1]]
             tl = arg(s[2]) if s[2] is not None else NILT
             # build the sub-structure with list/c
             res = tl
             if s[2] is None:
-                if rng.random() < 0.2:
+                if rng.random() < extra:
                     # an argument with more elements than the sub-pattern names
                     res = L(S("q"), tail=self.datalit([rng.randint(0, 30) for _ in range(rng.randint(1, 2))]))
                     for it in reversed(items):
@@ -486,18 +513,30 @@ class ProgGen:
         if self.has("rest") and not self.classic and len(items) >= 2 and rng.random() < 0.2:
             self.use("rest")
             k = rng.randint(1, len(items) - 1)
-            return L(S(f["name"]), *items[:k], S("&rest"), L(S("list"), *items[k:]))
+            fixed = items[:k]
+            if rng.random() < 0.3:
+                # constant fixed arguments, the tail decides: (F 1 2 &rest <expr>)
+                fixed = [self.lit(s[2]) if s[0] == "leaf" else it for s, it in zip(shape[1][:k], fixed)]
+            tail = L(S("list"), *items[k:])
+            if rng.random() < 0.3 and len(items) - k == 1:
+                c = self.boolexpr(sc, max(0, d - 1))
+                tail = L(S("i"), c, L(S("list"), items[k]), L(S("list"), self.expr(sc, "int", max(0, d - 1))))
+            return L(S(f["name"]), *fixed, S("&rest"), tail)
         return L(S(f["name"]), *items)
 
     # -- helpers
     def make_function(self, inline):
         rng = self.rng
         name = self.fresh("fi_" if inline else "fn_")
+        self.force_capture = self.has("captures") and self.has("lets") and not self.classic and rng.random() < 0.2
+        self.forced_now = self.force_capture
         pat, types, _, shape = self.pattern(rng.randint(1, 4), prefix="A")
+        self.force_capture = False
         ret = rng.choice(["int", "int", "bytes", "ilist", "any"])
         body = self.expr(Scope(types), ret, rng.randint(1, 3))
         caps = [n for n, t in types.items() if t == "any" and ("(@ " + n + " ") in text(pat)]
-        if caps and self.has("lets") and not self.classic and rng.random() < 0.5:
+        forced = self.has("captures") and "(@ " in text(pat) and getattr(self, "forced_now", False)
+        if caps and self.has("lets") and not self.classic and (forced or rng.random() < 0.5):
             # a capture name used inside a binding form of the function body (the binding form is
             # hoisted into a helper whose environment has to be rebuilt from the parameter pattern)
             self.use("lets")
@@ -510,6 +549,9 @@ class ProgGen:
             ret = "any"
         f = {"name": name, "inline": inline, "ret": ret, "pattern": pat, "shape": shape, "body": body}
         self.fns.append(f)
+        if self.forced_now:
+            self.__dict__.setdefault("cap_fns", []).append(f)
+        self.forced_now = False
         return L(S("defun-inline" if inline else "defun"), S(name), pat, body)
 
     def make_recursive(self):
@@ -623,6 +665,10 @@ class ProgGen:
             helpers += self.make_constant_chain()
         ret = rng.choice(["int", "int", "bytes", "ilist", "any"])
         body = self.expr(Scope(types), ret, rng.randint(1, 4))
+        for f in self.__dict__.get("cap_fns", []):
+            c = self.callform(Scope(types), f, 1)      # make sure the capture-and-binding-form function is called
+            if c is not None:
+                body = L(S("c"), c, body)
         if getattr(self, "chain_last", None) and rng.random() < 0.7:
             body = L(S("c"), S(self.chain_last), body)      # make sure the computed constant is used
         forms = [S("mod"), pat]
